@@ -7,7 +7,8 @@ Inductive c17case :=
 | CBo (base max att : N) (ops : list N)                 (* ReconnectState: ops 1 = failure, 0 = success *)
 | CIso (scn : N)                                        (* stack scenario: fault injected next to a healthy connection *)
 | CLag (sockets workers : N)                            (* scenario 31: burst of socket creations by the application *)
-| CTiming (base_ms max_ms need slack_lo slack_hi : N).  (* scenario 20: measured gaps between reconnect attempts *)
+| CTiming (base_ms max_ms need slack_lo slack_hi : N)
+| CRetry (base_ms max_ms hangs : N).                   (* scenario 22: the delays the connecter reports (ConnectRetried) *)  (* scenario 20: measured gaps between reconnect attempts *)
 
 Definition obs := list (list N).
 Definition b2n (b : bool) : N := if b then 1 else 0.
@@ -109,6 +110,7 @@ Definition c17_model (c : c17case) : obs :=
   | CBo base max att ops => bo_rows base max {| attempts := att; next_at := None |} ops
   | CIso scn => [iso_row scn (run CFG victim0 (scenario_inputs scn))]
   | CLag sockets workers => [iso_row 31 (run CFG victim0 (lag_inputs sockets workers))]
+  | CRetry _ _ _ => [[22; 1; 1]]
   | CTiming b m need _ _ => [20 :: map (fun i => delay (b * 1000000) (m * 1000000) (N.of_nat i) / 1000000) (seq 0 (N.to_nat need))]
   end.
 
@@ -128,6 +130,25 @@ Definition race_in_order : list input :=
 Definition race_overtaken : list input :=
   [CmdUserOther; EvActorStopping true 200 (Some 300) (Some ErrClosed); CmdNewConnSca (outbound 0) true].
 
+(* scenario 22: TcpConnecter::run_connect_loop after `hangs` lost connections: the connecter inherits k attempts
+   (k is decided by how many of the hang-ups SocketCore had recorded when it spawned this connecter: 0..hangs+1),
+   starts from conn_initial and advances with conn_next after every wait *)
+Fixpoint conn_seq (n : nat) (base cur : N) (maxopt : option N) : list N :=
+  match n with
+  | O => []
+  | S n' => cur :: match conn_next base cur maxopt with
+                   | Some c' => conn_seq n' base c' maxopt
+                   | None => []
+                   end
+  end.
+Definition retry_ok (base_ms max_ms hangs : N) (intervals : list N) : bool :=
+  let base := base_ms * 1000000 in
+  let mo := Some (max_ms * 1000000) in
+  existsb (fun k => match conn_initial base mo (N.of_nat k) with
+                    | Some c0 => row_eqb (map (fun d => d / 1000000) (conn_seq (length intervals) base c0 mo)) intervals
+                    | None => false
+                    end) (seq 0 (N.to_nat hangs + 2)).
+
 Definition c17_agrees (c : c17case) (e : obs) : bool :=
   match c with
   | CIso 21 => obs_eqb [race_row race_in_order] e || obs_eqb [race_row race_overtaken] e
@@ -138,6 +159,11 @@ Definition c17_agrees (c : c17case) (e : obs) : bool :=
                (* ... or the healthy connection's SESSION actor lags (sessionx/actor.rs: Lagged -> fatal error)
                   and only that connection is lost *)
                || obs_eqb [iso_row 30 (run CFG victim0 (scenario_inputs 30 ++ [EvActorStopping true 2 (Some 20) (Some ErrInternal)]))] e
+  | CRetry b m hangs =>
+      match e with
+      | [22 :: 1 :: 1 :: intervals] => retry_ok b m hangs intervals
+      | _ => false
+      end
   | CTiming b m need lo hi =>
       match e with
       | [20 :: gaps] => (N.to_nat need <=? length gaps)%nat && gaps_ok (b * 1000000) (m * 1000000) 0 lo hi gaps
